@@ -225,12 +225,17 @@ def bounded_arrivals(reg, tier, seed):
                     last_id = pid
                     sends[pid] = {"fut": fut, "acked": False, "ticks": 0, "failed": False}
                 elif ev in ("ack_app", "ack_pkt") and sends:
+                    also_acked = []
                     a = rng.choice(sorted(sends))
                     if ev == "ack_app":
                         m = Message("CompletePingCheck", Block("PingID", PingID=0), packet_id=rng.randrange(100, 200), direction=Direction.IN, acks=(a,),
                                     flags=PacketFlags.ACK)
                     else:
-                        m = Message("PacketAck", Block("Packets", ID=a), packet_id=rng.randrange(200, 300), direction=Direction.IN)
+                        # an explicit PacketAck may carry appended acks as well: both forms in one datagram
+                        extra_ = [x for x in sorted(sends) if x != a and rng.random() < 0.4][:2]
+                        m = Message("PacketAck", Block("Packets", ID=a), packet_id=rng.randrange(200, 300), direction=Direction.IN,
+                                    acks=tuple(extra_), flags=(PacketFlags.ACK if extra_ else 0))
+                        also_acked = extra_
                     trace.append((ev, a))
                     try:
                         env.recv(ser.serialize(m))
@@ -240,6 +245,9 @@ def bounded_arrivals(reg, tier, seed):
                     env.wire()
                     if not sends[a]["failed"]:
                         sends[a]["acked"] = True
+                    for x_ in (also_acked if ev == "ack_pkt" else []):
+                        if not sends[x_]["failed"]:
+                            sends[x_]["acked"] = True
                 elif ev == "tick":
                     env.clock.advance(env.circuit.resend_every + rng.choice(gaps))
                     env.circuit.resend_unacked()
